@@ -412,7 +412,7 @@ class C06(ResolveSpec):
     level_note = "as C01. The load-time cap on wildcard end dates is covered under C15's validate model."
     design_ref = 'DESIGN.md §4 C06'
     coq_files = ["Properties/C06.v"]
-    theorems = ["C06_grant_edges", "C06_only_grants_use_publishers", "C06_certified_by_grants_alone"]
+    theorems = ["C06_grant_edges", "C06_only_grants_use_publishers", "C06_certified_by_grants_alone", "C06_gap_between_windows_gets_nothing"]
     rule = ("as C01, with wildcard-audit/trusted entries and publisher records on every crate, dates drawn from a 9-date set "
             "so that start/end/publication days coincide, are adjacent or far apart; non-trivial = some reported path uses a "
             "wildcard or trusted edge or some publisher record is rejected by the window")
